@@ -402,7 +402,7 @@ TAN_K = '_ZN9fixedmath6detail4tan_ILi20EEEll'
 DIV16 = '_ZN9fixedmath6detail4div_ILi16EEElll'
 K_TAN_K = (TAN_K, 'pre_tan_k', 'post_tan_k')
 K_DIV16 = (DIV16, 'pre_div16', 'post_div16')
-UFP = [(TAN_RANGE, 'UF', 'post_tan_range'), (TAN_K, 'UF', 'post_tan_k'), (DIV16, 'UF', 'post_div16')]
+UFP = [(TAN_RANGE, 'UF', 'post_tan_range'), (TAN_K, 'UF:pre_tan_k', 'post_tan_k'), (DIV16, 'UF:pre_div16', 'post_div16')]
 U('C10', 'c10.tan_k', TAN_K, 'pre_tan_k', 'post_tan_k', cxx='fixedmath::detail::tan_<20>($1)', backends=MULBE, timeout=1800, split=True)
 U('C10', 'c10.div16', DIV16, 'pre_div16', 'post_div16', cxx='fixedmath::detail::div_<16>($1,$2)', **INTQ)
 U('C10', 'c10.tan_factors', 'lem_c10_tan_factors', 'pre_c10_nonneg2', None, lemma=True, cxx='lem_c10_tan_factors($1,$2)', replace=UFP, backends=('sat', 'kissat'), timeout=300)
@@ -443,7 +443,7 @@ for i in range(4):
     U('C11', 'c11.atan_sum%d' % (i + 1), ATAN_SUM[i], K_ATAN_SUM[i][1], K_ATAN_SUM[i][2], replace=[K_ATAN_K, K_DIV16], cxx=None, **INTQ)
 U('C11', 'c11.atan', ATAN, 'pre_valid1', 'post_atan', replace=[K_ATAN_K] + K_ATAN_SUM, cxx='fixedmath::atan($1)', **INTQ)
 U('C11', 'c11.odd', 'lem_c11_odd', 'pre_valid1', None, lemma=True, cxx='lem_c11_odd($1)',
-  replace=[(ATAN_K, 'UF', 'post_atan_k')] + [(K_ATAN_SUM[i][0], 'UF', K_ATAN_SUM[i][2]) for i in range(4)], backends=('sat', 'kissat'), timeout=300)
+  replace=[(ATAN_K, 'UF:pre_atan_k', 'post_atan_k')] + [(K_ATAN_SUM[i][0], 'UF:' + K_ATAN_SUM[i][1], K_ATAN_SUM[i][2]) for i in range(4)], backends=('sat', 'kissat'), timeout=300)
 U('C11', 'c11.atan2', ATAN2, 'pre_c11_atan2', 'post_atan2', replace=[K_ATAN, K_DIVF, I2F_L], cxx='fixedmath::atan2($1,$2)', **INTQ)
 
 
@@ -477,7 +477,7 @@ for cfg in ('abacus', 'stdsqrt'):
     U('C12', 'c12.asin.' + cfg, ASIN, 'pre_valid1', 'post_asin', replace=[K_ASIN_K, K_SQRT_ASIN], cfg=cfg, cxx='fixedmath::asin($1)', backends=('sat', 'kissat'), timeout=300)
 U('C12', 'c12.sqrt_1ulp.abacus', 'lem_c12_sqrt_contract', 'pre_c12_sqrtc', None, lemma=True, cxx='lem_c12_sqrt_contract($1,$2)', **INTQ)
 U('C12', 'c12.sqrt_bound', 'lem_c12_sqrt_bound', 'pre_c12_sqrtb', None, lemma=True, cxx='lem_c12_sqrt_bound($1,$2)', **INTQ)
-U('C12', 'c12.odd', 'lem_c12_odd', 'pre_c12_in', None, lemma=True, cxx='lem_c12_odd($1)', replace=[(ASIN_K, 'UF', 'post_asin_k'), (SQRT, 'UF', 'post_sqrt_asin')], backends=('sat', 'kissat'), timeout=300)
+U('C12', 'c12.odd', 'lem_c12_odd', 'pre_c12_in', None, lemma=True, cxx='lem_c12_odd($1)', replace=[(ASIN_K, 'UF:pre_asin_k', 'post_asin_k'), (SQRT, 'UF', 'post_sqrt_asin')], backends=('sat', 'kissat'), timeout=300)
 U('C12', 'c12.acos', 'lem_c12_acos', 'pre_valid1', None, lemma=True, cxx='lem_c12_acos($1)', replace=[(ASIN, 'UF', 'post_asin')], backends=('sat', 'kissat'), timeout=300)
 
 
@@ -705,5 +705,14 @@ def c08_battery(tier, seed):
 
 
 E('C08', c08_battery)
+
+
+def c08_sqrt_algos(tier, seed):
+    r = c13_scan(tier, seed)     # includes: |sqrt_abacus(x) - sqrt_std_math(x)| <= 1 ulp on the structured/random set
+    r['name'] = 'c08_sqrt_algorithms_scan'
+    return r
+
+
+E('C08', c08_sqrt_algos)
 
 NOT_APPLICABLE = {}
